@@ -341,6 +341,16 @@ func runC04(o *out, r *rng, thorough bool, replay string) {
 			g.table = append(g.table, g.newEntry(1<<40), g.newEntry(1<<40), g.newEntry(1<<39), g.newEntry(1), g.newEntry(2))
 			g.table = sortEntries(g.table)
 		}
+		if ci%3 == 1 {
+			// byte-scale tables: the total swept over every bit length with one dominant member (the scaled powers that the
+			// quorum check of certificate validation uses are 0xffff*power/total)
+			g.table = nil
+			for _, p := range genPowersDominant(r, 3+r.intn(4), sweepBits(ci/3)) {
+				g.table = append(g.table, g.newEntryBig(p))
+			}
+			g.table = sortEntries(g.table)
+			g.static = r.bool()
+		}
 		first := g.next
 		base0 := g.base
 		prev0 := g.table
@@ -422,7 +432,7 @@ func runC04(o *out, r *rng, thorough bool, replay string) {
 					c.SupplementalData.Commitments[5] ^= 1
 					kind = "supp-commitments"
 				case 6: // signer set just below threshold: re-sign honestly with fewer signers
-					scaled, total, _ := tbl.Scaled()
+					scaled, total := indepScaled(tbl)
 					q := minimalQuorum(r, tbl)
 					// drop signers until below quorum
 					for len(q) > 0 {
@@ -430,7 +440,7 @@ func runC04(o *out, r *rng, thorough bool, replay string) {
 						for _, s := range q {
 							pw += scaled[s]
 						}
-						if !gpbft.IsStrongQuorum(pw, total) {
+						if !indepStrong(pw, total) {
 							break
 						}
 						q = q[:len(q)-1]
@@ -443,7 +453,7 @@ func runC04(o *out, r *rng, thorough bool, replay string) {
 					c.Signers = bf
 					kind = "signer-range"
 				case 8: // add a zero-scaled signer if any, else extra honest signer not in signature
-					scaled, _, _ := tbl.Scaled()
+					scaled, _ := indepScaled(tbl)
 					bf, _ := c.Signers.Copy()
 					added := false
 					for i, s := range scaled {
